@@ -53,12 +53,12 @@ def main():
         if rc != 0: print(o[-3000:])
         dst = os.path.join(wt, d, "zz_seed_demo_test.go")
         shutil.copy(demo, dst)
-        rc1, o1 = sh(["go", "test"] + tags + ["-vet=off", "-count=1", "-run", "Demo|Seed|C%s|Test" % pid[1:], "./" + d], cwd=wt)
+        rc1, o1 = sh(["flock", "/tmp/kernel-suite.lock", "go", "test"] + tags + ["-vet=off", "-count=1", "-run", "Demo|Seed|C%s|Test" % pid[1:], "./" + d], cwd=wt)
         rec["demo_with_patch"] = "fails" if rc1 != 0 else "PASSES"
         os.remove(dst)
         rc, o = sh(["git", "checkout", "--", "."], cwd=wt); assert rc == 0
         shutil.copy(demo, dst)
-        rc2, o2 = sh(["go", "test"] + tags + ["-vet=off", "-count=1", "-run", "Demo|Seed|C%s|Test" % pid[1:], "./" + d], cwd=wt)
+        rc2, o2 = sh(["flock", "/tmp/kernel-suite.lock", "go", "test"] + tags + ["-vet=off", "-count=1", "-run", "Demo|Seed|C%s|Test" % pid[1:], "./" + d], cwd=wt)
         rec["demo_without_patch"] = "passes" if rc2 == 0 else "FAILS"
         if rc2 != 0: print(o2[-2000:])
         rec["ran"].append("demo test (go test %s) in ./%s with patch -> %s; without patch -> %s" % (" ".join(tags), d, rec["demo_with_patch"], rec["demo_without_patch"]))
